@@ -37,8 +37,8 @@ Qed.
 Lemma enc_str_truncates : forall a b, df_nonul a -> df_enc_str (SBytes (a ++ 0 :: b)) = df_enc_str (SBytes a).
 Proof. intros a b H. unfold df_enc_str. cbn [str_read]. now rewrite cstr_truncates, cstr_nonul. Qed.
 
-Lemma rd_str_go_ok : forall j l room r, df_nonul l -> N.of_nat (length l) < room ->
-  df_rd_str_go j room (l ++ 0 :: 31 :: r) = DfOk (l, DfIn r).
+Lemma rd_str_go_ok : forall l room r, df_nonul l -> N.of_nat (length l) < room ->
+  df_rd_str_go room (l ++ 0 :: 31 :: r) = DfOk (l, r).
 Proof.
   induction l as [|a l IH]; intros room r Hn Hroom.
   - cbn [app df_rd_str_go]. destruct (room =? 0) eqn:E; [cbn [length] in Hroom; lia|]. reflexivity.
@@ -48,8 +48,8 @@ Proof.
     rewrite IH; [reflexivity | exact Hl | lia].
 Qed.
 
-Lemma rd_str_go_too_big : forall j l room r, df_nonul l -> room <= N.of_nat (length l) ->
-  df_rd_str_go j room (l ++ 0 :: r) = DfErr JLS_ERROR_TOO_BIG.
+Lemma rd_str_go_too_big : forall l room r, df_nonul l -> room <= N.of_nat (length l) ->
+  df_rd_str_go room (l ++ 0 :: r) = DfErr JLS_ERROR_TOO_BIG.
 Proof.
   induction l as [|a l IH]; intros room r Hn Hroom.
   - cbn [app df_rd_str_go]. cbn [length] in Hroom. destruct (room =? 0) eqn:E; [reflexivity|lia].
@@ -59,8 +59,8 @@ Proof.
 Qed.
 
 (* a terminator that is not followed by 0x1f is accepted as well; nothing is skipped *)
-Lemma rd_str_go_no_sep : forall j l room x r, df_nonul l -> N.of_nat (length l) < room -> x <> 31 ->
-  df_rd_str_go j room (l ++ 0 :: x :: r) = DfOk (l, DfIn (x :: r)).
+Lemma rd_str_go_no_sep : forall l room x r, df_nonul l -> N.of_nat (length l) < room -> x <> 31 ->
+  df_rd_str_go room (l ++ 0 :: x :: r) = DfOk (l, x :: r).
 Proof.
   induction l as [|a l IH]; intros room x r Hn Hroom Hx.
   - cbn [app df_rd_str_go]. destruct (room =? 0) eqn:E; [cbn [length] in Hroom; lia|].
@@ -70,9 +70,9 @@ Proof.
     rewrite IH; [reflexivity | exact Hl | lia | exact Hx].
 Qed.
 
-(* the NUL is the last byte of the payload: the C looks at the byte stored at [end] *)
-Lemma rd_str_go_at_end : forall j l room, df_nonul l -> N.of_nat (length l) < room ->
-  df_rd_str_go j room (l ++ [0]) = DfOk (l, if j =? 31 then DfOver else DfIn []).
+(* the NUL is the last byte of the payload: nothing beyond it is looked at *)
+Lemma rd_str_go_at_end : forall l room, df_nonul l -> N.of_nat (length l) < room ->
+  df_rd_str_go room (l ++ [0]) = DfOk (l, []).
 Proof.
   induction l as [|a l IH]; intros room Hn Hroom.
   - cbn [app df_rd_str_go]. destruct (room =? 0) eqn:E; [cbn [length] in Hroom; lia|]. reflexivity.
@@ -82,8 +82,8 @@ Proof.
 Qed.
 
 (* no NUL at all: EMPTY or TOO_BIG *)
-Lemma rd_str_go_no_nul : forall j l room, df_nonul l ->
-  df_rd_str_go j room l = DfErr (if N.of_nat (length l) <=? room then JLS_ERROR_EMPTY else JLS_ERROR_TOO_BIG).
+Lemma rd_str_go_no_nul : forall l room, df_nonul l ->
+  df_rd_str_go room l = DfErr (if N.of_nat (length l) <=? room then JLS_ERROR_EMPTY else JLS_ERROR_TOO_BIG).
 Proof.
   induction l as [|a l IH]; intros room Hn.
   - cbn [df_rd_str_go length]. destruct (N.of_nat 0 <=? room) eqn:E; [reflexivity|lia].
@@ -98,21 +98,21 @@ Qed.
 Lemma str_fits_iff : forall l, df_str_fitsb l = true <-> df_str_fits l.
 Proof. intros l. unfold df_str_fitsb, df_str_fits. apply N.leb_le. Qed.
 
-Lemma rd_str_enc : forall j s rest, df_str_fits (df_cstr (str_read s)) ->
-  df_rd_str j (DfIn (df_enc_str s ++ rest)) = DfOk (df_cstr (str_read s), DfIn rest).
+Lemma rd_str_enc : forall s rest, df_str_fits (df_cstr (str_read s)) ->
+  df_rd_str (df_enc_str s ++ rest) = DfOk (df_cstr (str_read s), rest).
 Proof.
-  intros j s rest Hf. unfold df_rd_str, df_enc_str. rewrite <- app_assoc. cbn [app].
+  intros s rest Hf. unfold df_rd_str, df_enc_str. rewrite <- app_assoc. cbn [app].
   apply rd_str_go_ok; [apply cstr_is_nonul|]. unfold df_str_fits in Hf. lia.
 Qed.
 
-Lemma rd_str_enc_nil : forall j s, df_str_fits (df_cstr (str_read s)) ->
-  df_rd_str j (DfIn (df_enc_str s)) = DfOk (df_cstr (str_read s), DfIn []).
-Proof. intros j s Hf. rewrite <- (app_nil_r (df_enc_str s)). now apply rd_str_enc. Qed.
+Lemma rd_str_enc_nil : forall s, df_str_fits (df_cstr (str_read s)) ->
+  df_rd_str (df_enc_str s) = DfOk (df_cstr (str_read s), []).
+Proof. intros s Hf. rewrite <- (app_nil_r (df_enc_str s)). now apply rd_str_enc. Qed.
 
-Lemma rd_str_enc_too_big : forall j s rest, ~ df_str_fits (df_cstr (str_read s)) ->
-  df_rd_str j (DfIn (df_enc_str s ++ rest)) = DfErr JLS_ERROR_TOO_BIG.
+Lemma rd_str_enc_too_big : forall s rest, ~ df_str_fits (df_cstr (str_read s)) ->
+  df_rd_str (df_enc_str s ++ rest) = DfErr JLS_ERROR_TOO_BIG.
 Proof.
-  intros j s rest Hf. unfold df_rd_str, df_enc_str. rewrite <- app_assoc. cbn [app].
+  intros s rest Hf. unfold df_rd_str, df_enc_str. rewrite <- app_assoc. cbn [app].
   apply rd_str_go_too_big; [apply cstr_is_nonul|]. unfold df_str_fits in Hf. lia.
 Qed.
 
@@ -139,26 +139,26 @@ Proof.
 Qed.
 
 (* ================================================================== fixed-size fields *)
-Lemma rd_u8_enc : forall v r, v < 256 -> df_rd_u8 (DfIn (df_u8 v ++ r)) = DfOk (v, DfIn r).
+Lemma rd_u8_enc : forall v r, v < 256 -> df_rd_u8 (df_u8 v ++ r) = DfOk (v, r).
 Proof. intros v r H. unfold df_u8. cbn [app df_rd_u8]. do 2 f_equal. lia. Qed.
 
-Lemma rd_u16_enc : forall v r, v < 65536 -> df_rd_u16 (DfIn (df_u16 v ++ r)) = DfOk (v, DfIn r).
+Lemma rd_u16_enc : forall v r, v < 65536 -> df_rd_u16 (df_u16 v ++ r) = DfOk (v, r).
 Proof. intros v r H. unfold df_u16. cbn [app df_rd_u16]. do 2 f_equal. lia. Qed.
 
-Lemma rd_u32_enc : forall v r, v < 4294967296 -> df_rd_u32 (DfIn (df_u32 v ++ r)) = DfOk (v, DfIn r).
+Lemma rd_u32_enc : forall v r, v < 4294967296 -> df_rd_u32 (df_u32 v ++ r) = DfOk (v, r).
 Proof. intros v r H. unfold df_u32. cbn [app df_rd_u32]. do 2 f_equal. lia. Qed.
 
 Lemma skipn_repeat : forall n r, df_skipn n (repeat 0 n ++ r) = Some r.
 Proof. induction n as [|n IH]; intros r; [reflexivity|]. cbn [repeat app df_skipn]. apply IH. Qed.
 
-Lemma rd_skip_zero : forall n r, df_rd_skip n (DfIn (repeat 0 n ++ r)) = DfOk (DfIn r).
+Lemma rd_skip_zero : forall n r, df_rd_skip n (repeat 0 n ++ r) = DfOk r.
 Proof. intros n r. unfold df_rd_skip. now rewrite skipn_repeat. Qed.
 
 (* ================================================================== definition payloads *)
-Theorem source_def_roundtrip : forall j d, df_src_fits d ->
-  df_dec_source_def j (so_id d) (df_enc_source_def d) = DfOk (df_src_read d).
+Theorem source_def_roundtrip : forall d, df_src_fits d ->
+  df_dec_source_def (so_id d) (df_enc_source_def d) = DfOk (df_src_read d).
 Proof.
-  intros j d (H1 & H2 & H3 & H4 & H5). unfold df_dec_source_def, df_enc_source_def.
+  intros d (H1 & H2 & H3 & H4 & H5). unfold df_dec_source_def, df_enc_source_def.
   rewrite rd_skip_zero. cbn [df_bind].
   rewrite rd_str_enc by exact H1. cbn [df_bind].
   rewrite rd_str_enc by exact H2. cbn [df_bind].
@@ -168,10 +168,10 @@ Proof.
   reflexivity.
 Qed.
 
-Theorem signal_def_roundtrip : forall j d, df_sig_ranges d -> df_sig_fits d ->
-  df_dec_signal_def j (sg_id d) (df_enc_signal_def d) = DfOk (df_sig_read d).
+Theorem signal_def_roundtrip : forall d, df_sig_ranges d -> df_sig_fits d ->
+  df_dec_signal_def (sg_id d) (df_enc_signal_def d) = DfOk (df_sig_read d).
 Proof.
-  intros j d (R1 & R2 & R3 & R4 & R5 & R6 & R7 & R8 & R9 & R10) (F1 & F2).
+  intros d (R1 & R2 & R3 & R4 & R5 & R6 & R7 & R8 & R9 & R10) (F1 & F2).
   unfold df_dec_signal_def, df_enc_signal_def.
   rewrite rd_u16_enc by exact R1. cbn [df_bind].
   rewrite rd_u8_enc by exact R2. cbn [df_bind].
@@ -375,7 +375,7 @@ Definition Rel (w : df_wr) (srcs : list srcdef) (sds : list sigdef) (uds : list 
   (forall id, match dfw_sig w id with DfDefd d => find_sd sds id = Some d | _ => find_sd sds id = None end) /\
   df_log_src (dfw_log w) = map src_entry srcs /\
   df_log_sig (dfw_log w) = map sig_entry sds /\
-  df_log_ud (dfw_log w) = (0, []) :: map ud_entry uds.
+  (exists r, df_log_ud (dfw_log w) = (0, []) :: r /\ df_ud_walk r = (uds, 0)).
 
 Definition CInv (srcs : list srcdef) (sds : list sigdef) (uds : list udata) : Prop :=
   NoDup (map so_id srcs) /\
@@ -384,7 +384,7 @@ Definition CInv (srcs : list srcdef) (sds : list sigdef) (uds : list udata) : Pr
   NoDup (map sg_id sds) /\
   (forall d, In d sds -> sg_id d < 256 /\ df_validate d = true /\ df_sig_ranges d /\ df_sig_fits d) /\
   find_sd sds 0 = Some signal0 /\
-  (forall u, In u uds -> ud_meta u < 4096 /\ ud_stype u <= 3).
+  (forall u, In u uds -> ud_meta u < 4096 /\ 1 <= ud_stype u <= 3).
 
 Definition R (w : df_wr) (c : content) : Prop :=
   Rel w (c_sources c) (sdefs c) (c_udata c) /\ CInv (c_sources c) (sdefs c) (c_udata c).
@@ -415,22 +415,54 @@ Ltac split5 := split; [|split; [|split; [|split]]].
 Ltac split7 := split; [|split; [|split; [|split; [|split; [|split]]]]].
 
 (* ---- WSrc ---- *)
-Lemma step_src : forall w c d, R w c -> df_src_fits d ->
+Lemma spec_fits_save : forall s, df_nonul (str_read s) -> str_fits s = df_save_ok s.
+Proof.
+  intros [|l] H; [reflexivity|]. cbn [str_read] in H. unfold str_fits, df_save_ok, df_str_fitsb. cbn [str_read].
+  rewrite (cstr_nonul l H). change JLS_BUF_STRING_SIZE with 1048576.
+  destruct (N.of_nat (length l) + 2 <=? 1048576) eqn:E1; destruct (N.of_nat (length l) + 1 <=? 1048576 - 1) eqn:E2;
+    try reflexivity; lia.
+Qed.
+
+Lemma save_ok_fits_inv : forall s, df_save_ok s = true -> df_str_fits (df_cstr (str_read s)).
+Proof. intros [|l] H; [unfold df_str_fits; vm_compute; intros Hle_; discriminate Hle_ | now apply str_fits_iff]. Qed.
+
+Lemma andb_tail5 : forall a s1 s2 s3 s4 s5, a && s1 && s2 && s3 && s4 && s5 = a && (s1 && s2 && s3 && s4 && s5).
+Proof. intros [|] s1 s2 s3 s4 s5; reflexivity. Qed.
+
+Lemma R_scratch_src : forall w c id d, R w c -> df_is_defd (dfw_src w id) = false ->
+  R (df_set_src w id (DfScratch d) (dfw_log w)) c.
+Proof.
+  intros w c id d [(Rs & Rg & Ls & Lg & Lu) HC] Hnd. split; [|exact HC].
+  unfold Rel, df_set_src. cbn [dfw_src dfw_sig dfw_log]. split5; try assumption.
+  intros i. destruct (N.eq_dec i id) as [->|Hne].
+  - rewrite upd_same. rewrite <- Rs, Hnd. reflexivity.
+  - rewrite upd_other by exact Hne. apply Rs.
+Qed.
+
+Lemma step_src : forall w c d, R w c -> df_src_nonul d ->
   R (fst (df_step w (DfSrc d))) (fst (wstep c (WSrc d))) /\
   df_accepted (snd (df_step w (DfSrc d))) = snd (wstep c (WSrc d)).
 Proof.
-  intros w c d HR Hf. pose proof HR as [(Rs & Rg & Ls & Lg & Lu) (C1 & C2 & C3 & C4 & C5 & C6 & C7)].
+  intros w c d HR (N1 & N2 & N3 & N4 & N5). pose proof HR as [(Rs & Rg & Ls & Lg & Lu) (C1 & C2 & C3 & C4 & C5 & C6 & C7)].
   cbn [df_step wstep]. unfold df_wr_source, find_src. change JLS_SOURCE_COUNT with 256.
   fold (find_so (c_sources c) (so_id d)).
+  rewrite andb_tail5.
+  rewrite (spec_fits_save _ N1), (spec_fits_save _ N2), (spec_fits_save _ N3), (spec_fits_save _ N4), (spec_fits_save _ N5).
   destruct (256 <=? so_id d) eqn:E1.
   - assert (E1' : (so_id d <? 256) = false) by lia. rewrite E1'. cbn [andb fst snd].
     split; [exact HR|reflexivity].
   - assert (E1' : (so_id d <? 256) = true) by lia. rewrite E1'. cbn [andb].
     pose proof (Rs (so_id d)) as Rsd. destruct (find_so (c_sources c) (so_id d)) as [d0|] eqn:F; rewrite Rsd.
-    + cbn [fst snd]. split; [exact HR|reflexivity].
-    + destruct Hf as (F1 & F2 & F3 & F4 & F5).
-      rewrite (save_ok_fits _ F1), (save_ok_fits _ F2), (save_ok_fits _ F3), (save_ok_fits _ F4), (save_ok_fits _ F5).
-      cbn [andb fst snd]. split; [|reflexivity].
+    + cbn [andb fst snd]. split; [exact HR|reflexivity].
+    + cbn [andb].
+      destruct (df_save_ok (so_name d) && df_save_ok (so_vendor d) && df_save_ok (so_model d)
+                && df_save_ok (so_version d) && df_save_ok (so_serial d)) eqn:SO;
+        [|cbn [fst snd]; split; [now apply R_scratch_src|reflexivity]].
+      assert (Hf : df_src_fits d).
+      { apply andb_prop in SO. destruct SO as [SO S5]. apply andb_prop in SO. destruct SO as [SO S4].
+        apply andb_prop in SO. destruct SO as [SO S3]. apply andb_prop in SO. destruct SO as [S1 S2].
+        repeat split; now apply save_ok_fits_inv. }
+      cbn [fst snd]. split; [|reflexivity].
       assert (Hnin : forall x, In x (c_sources c) -> so_id x <> so_id d).
       { intros x Hx E. pose proof (find_none _ _ F x Hx) as Hn. cbn beta in Hn. lia. }
       split.
@@ -446,13 +478,13 @@ Proof.
         -- exact Rg.
         -- rewrite log_src_app, map_app, Ls. reflexivity.
         -- rewrite log_sig_app, Lg. cbn [df_log_sig]. now rewrite app_nil_r.
-        -- rewrite log_ud_app, Lu. cbn [df_log_ud]. now rewrite app_nil_r.
+        -- rewrite log_ud_app. cbn [df_log_ud]. rewrite app_nil_r. exact Lu.
       * (* CInv *)
         unfold CInv. cbn [c_sources c_signals c_udata sdefs]. split7; try assumption.
         -- rewrite map_app. cbn [map]. apply nodup_snoc. split; [exact C1|].
            intros Hin. apply in_map_iff in Hin. destruct Hin as (x & Hx1 & Hx2). now apply (Hnin x Hx2).
         -- intros x Hx. apply in_app_or in Hx. destruct Hx as [Hx|[<-|[]]]; [now apply C2|].
-           split; [lia|]. repeat split; assumption.
+           split; [lia|exact Hf].
         -- unfold find_so. rewrite find_app1. fold (find_so (c_sources c) 0). now rewrite C3.
 Qed.
 
@@ -481,14 +513,29 @@ Proof.
   - rewrite upd_other by exact Hne. apply Rg.
 Qed.
 
-Lemma step_sig : forall w c d, R w c -> df_sig_fits d -> df_sig_ranges (sp_align d) ->
+Lemma step_sig : forall w c d, R w c -> df_nonul (str_read (sg_name d)) -> df_nonul (str_read (sg_units d)) ->
+  df_sig_ranges (sp_align d) -> df_align_ok d = true ->
   R (fst (df_step w (DfSig d))) (fst (wstep c (WSig d))) /\
   df_accepted (snd (df_step w (DfSig d))) = snd (wstep c (WSig d)).
 Proof.
-  intros w c d HR Hf Hr. pose proof HR as [(Rs & Rg & Ls & Lg & Lu) (C1 & C2 & C3 & C4 & C5 & C6 & C7)].
+  intros w c d HR Nn Nu Hr Hao. pose proof HR as [(Rs & Rg & Ls & Lg & Lu) (C1 & C2 & C3 & C4 & C5 & C6 & C7)].
   cbn [df_step wstep]. unfold df_wr_signal, find_src.
   change JLS_SIGNAL_COUNT with 256. change JLS_SOURCE_COUNT with 256.
   fold (find_so (c_sources c) (sg_src d)).
+  rewrite <- (andb_assoc _ (str_fits (sg_name d)) (str_fits (sg_units d))).
+  rewrite (spec_fits_save _ Nn), (spec_fits_save _ Nu).
+  destruct (df_save_ok (sg_name d) && df_save_ok (sg_units d)) eqn:SO.
+  2: { (* a string does not fit: the specification rejects; so does the writer, at one of its checks *)
+    rewrite andb_false_r. cbn [fst snd negb].
+    destruct (256 <=? sg_id d); [split; [exact HR|reflexivity]|].
+    destruct (256 <=? sg_src d); [split; [exact HR|reflexivity]|].
+    destruct (negb (df_is_defd (dfw_src w (sg_src d)))); [split; [exact HR|reflexivity]|].
+    destruct (df_is_defd (dfw_sig w (sg_id d))) eqn:Hnd; [split; [exact HR|reflexivity]|].
+    destruct (negb ((sg_type d =? JLS_SIGNAL_TYPE_FSR) || (sg_type d =? JLS_SIGNAL_TYPE_VSR))); [split; [exact HR|reflexivity]|].
+    cbn [fst snd]. split; [now apply R_scratch|reflexivity]. }
+  rewrite andb_true_r. cbn [negb].
+  assert (Hf : df_sig_fits d).
+  { apply andb_prop in SO. destruct SO as [S1 S2]. split; now apply save_ok_fits_inv. }
   destruct (256 <=? sg_id d) eqn:E1.
   { assert (E1' : (sg_id d <? 256) = false) by lia. rewrite E1'. cbn [andb fst snd]. split; [exact HR|reflexivity]. }
   assert (E1' : (sg_id d <? 256) = true) by lia. rewrite E1'.
@@ -502,10 +549,11 @@ Proof.
   assert (Hnd : df_is_defd (dfw_sig w (sg_id d)) = false) by (rewrite (sig_defd_iff w c (sg_id d) HR), G; reflexivity).
   destruct ((sg_type d =? JLS_SIGNAL_TYPE_FSR) || (sg_type d =? JLS_SIGNAL_TYPE_VSR)) eqn:T; cbn [negb andb];
     [|cbn [fst snd]; split; [exact HR|reflexivity]].
-  destruct Hf as (F1 & F2). rewrite (save_ok_fits _ F1), (save_ok_fits _ F2). cbn [andb negb].
+  pose proof Hf as (F1 & F2).
   unfold df_validate. change JLS_SIGNAL_COUNT with 256. change JLS_SOURCE_COUNT with 256. rewrite E1', E2', T. cbn [andb].
   destruct (dt_valid (sg_dtype d)) eqn:V; cbn [negb andb];
     [|cbn [fst snd]; split; [now apply R_scratch|reflexivity]].
+  rewrite Hao. cbn [negb].
   destruct ((sg_type d =? JLS_SIGNAL_TYPE_FSR) && (sg_rate d =? 0)) eqn:RT.
   { assert (RT' : (sg_type d =? JLS_SIGNAL_TYPE_VSR) || negb (sg_rate d =? 0) = false)
       by (unfold JLS_SIGNAL_TYPE_FSR, JLS_SIGNAL_TYPE_VSR in *; lia).
@@ -532,12 +580,12 @@ Proof.
         destruct (dfw_sig w i); rewrite Rg; try reflexivity; destruct (sg_id d =? i) eqn:E; try reflexivity; lia.
     + rewrite log_src_app, Ls. cbn [df_log_src]. rewrite T1. now rewrite app_nil_r.
     + rewrite log_sig_app, map_app, Lg. cbn [df_log_sig map]. rewrite T2. reflexivity.
-    + rewrite log_ud_app, Lu. cbn [df_log_ud]. rewrite T3. now rewrite app_nil_r.
+    + rewrite log_ud_app. cbn [df_log_ud]. rewrite T3, app_nil_r. exact Lu.
   - unfold CInv, sdefs. cbn [c_sources c_signals c_udata]. rewrite Hsd. split7; try assumption.
     + rewrite map_app. cbn [map]. apply nodup_snoc. split; [exact C4|].
       intros Hin. apply in_map_iff in Hin. destruct Hin as (x & Hx1 & Hx2). apply (Hnin x Hx2). exact Hx1.
     + intros x Hx. apply in_app_or in Hx. destruct Hx as [Hx|[<-|[]]]; [now apply C5|].
-      split; [change (sg_id d') with (sg_id d); lia|]. split; [|split; [exact Hr|split; assumption]].
+      split; [change (sg_id d') with (sg_id d); lia|]. split; [|split; [exact Hr|exact Hf]].
       unfold d'. rewrite validate_align. unfold df_validate.
       change JLS_SIGNAL_COUNT with 256. change JLS_SOURCE_COUNT with 256. rewrite E1', E2', T, V. reflexivity.
     + unfold find_sd. rewrite find_app1. fold (find_sd (sdefs c) 0). now rewrite C6.
@@ -547,20 +595,65 @@ Qed.
 Lemma land_4095 : forall m, N.land m 4095 = m mod 4096.
 Proof. intros m. change 4095 with (N.ones 12). now rewrite N.land_ones. Qed.
 
-Lemma R_put : forall w c meta st pl, R w c -> st <= 3 ->
+Lemma ud_bits : forall m st, m < 4096 -> st <= 3 ->
+  N.land (N.shiftr (m + 4096 * st) 12) 15 = st /\ N.land (m + 4096 * st) 4095 = m.
+Proof.
+  intros m st Hm Hs. split.
+  - rewrite N.shiftr_div_pow2. change (2 ^ 12) with 4096. change 15 with (N.ones 4). rewrite N.land_ones.
+    change (2 ^ 4) with 16. lia.
+  - rewrite land_4095. lia.
+Qed.
+
+Lemma ud_walk_app : forall l e items, df_ud_walk l = (items, 0) ->
+  df_ud_walk (l ++ [e]) = (items ++ fst (df_ud_walk [e]), snd (df_ud_walk [e])).
+Proof.
+  induction l as [|[m pl] l IH]; intros e items H.
+  - cbn [df_ud_walk] in H. injection H as <-. cbn [app]. now destruct (df_ud_walk [e]).
+  - cbn [app]. cbn [df_ud_walk] in H |- *.
+    destruct (N.land (N.shiftr m 12) 15 =? 0); [now apply IH|].
+    destruct ((1 <=? N.land (N.shiftr m 12) 15) && (N.land (N.shiftr m 12) 15 <=? 3)); [|discriminate H].
+    destruct (df_ud_walk l) as [it rc] eqn:W. injection H as <- ->.
+    rewrite (IH e it eq_refl). reflexivity.
+Qed.
+
+(* an item (storage type 1..3) *)
+Lemma R_put : forall w c meta st pl, R w c -> 1 <= st <= 3 ->
   R {| dfw_src := dfw_src w; dfw_sig := dfw_sig w;
        dfw_log := dfw_log w ++ [DfLUd (N.land meta 4095 + 4096 * st) pl]; dfw_data := dfw_data w |}
     {| c_sources := c_sources c; c_signals := c_signals c;
        c_udata := c_udata c ++ [{| ud_meta := N.land meta 4095; ud_stype := st; ud_data := pl |}] |}.
 Proof.
-  intros w c meta st pl [(Rs & Rg & Ls & Lg & Lu) (C1 & C2 & C3 & C4 & C5 & C6 & C7)] Hst. split.
+  intros w c meta st pl [(Rs & Rg & Ls & Lg & (r & Lu & Wk)) (C1 & C2 & C3 & C4 & C5 & C6 & C7)] Hst.
+  assert (Hm : N.land meta 4095 < 4096) by (rewrite land_4095; apply N.mod_lt; lia).
+  split.
   - unfold Rel, sdefs. cbn [dfw_src dfw_sig dfw_log c_sources c_signals c_udata]. split5; try assumption.
     + rewrite log_src_app, Ls. cbn [df_log_src]. now rewrite app_nil_r.
     + rewrite log_sig_app, Lg. cbn [df_log_sig]. now rewrite app_nil_r.
-    + rewrite log_ud_app, Lu, map_app. reflexivity.
+    + exists (r ++ [(N.land meta 4095 + 4096 * st, pl)]). split; [rewrite log_ud_app, Lu; reflexivity|].
+      rewrite (ud_walk_app r _ _ Wk). cbn [df_ud_walk].
+      destruct (ud_bits (N.land meta 4095) st Hm (proj2 Hst)) as [E1 E2]. rewrite E1, E2.
+      destruct (st =? 0) eqn:E0; [lia|]. destruct ((1 <=? st) && (st <=? 3)) eqn:E3; [|lia]. reflexivity.
   - unfold CInv, sdefs. cbn [c_sources c_signals c_udata]. split7; try assumption.
     intros x Hx. apply in_app_or in Hx. destruct Hx as [Hx|[<-|[]]]; [now apply C7|].
-    cbn [ud_meta ud_stype]. rewrite land_4095. split; [|exact Hst]. apply N.mod_lt. lia.
+    cbn [ud_meta ud_stype]. split; [exact Hm|exact Hst].
+Qed.
+
+(* a placeholder (storage type INVALID): a chunk in the log, nothing in the content *)
+Lemma R_put0 : forall w c meta, R w c ->
+  R {| dfw_src := dfw_src w; dfw_sig := dfw_sig w;
+       dfw_log := dfw_log w ++ [DfLUd (N.land meta 4095 + 4096 * 0) []]; dfw_data := dfw_data w |} c.
+Proof.
+  intros w c meta [(Rs & Rg & Ls & Lg & (r & Lu & Wk)) HC].
+  assert (Hm : N.land meta 4095 < 4096) by (rewrite land_4095; apply N.mod_lt; lia).
+  split; [|exact HC].
+  unfold Rel. cbn [dfw_src dfw_sig dfw_log]. split5; try assumption.
+  - rewrite log_src_app, Ls. cbn [df_log_src]. now rewrite app_nil_r.
+  - rewrite log_sig_app, Lg. cbn [df_log_sig]. now rewrite app_nil_r.
+  - exists (r ++ [(N.land meta 4095 + 4096 * 0, [])]). split; [rewrite log_ud_app, Lu; reflexivity|].
+    rewrite (ud_walk_app r _ _ Wk). cbn [df_ud_walk].
+    assert (H0 : (0 : N) <= 3) by lia.
+    destruct (ud_bits (N.land meta 4095) 0 Hm H0) as [E1 _]. rewrite E1. cbn [N.eqb fst snd].
+    now rewrite app_nil_r.
 Qed.
 
 Lemma step_ud : forall w c u, R w c ->
@@ -572,7 +665,8 @@ Proof.
   intros w c u HR Hg. cbn [df_op_of df_step wstep]. unfold df_wr_user_data, stype_ok_ud.
   unfold JLS_STORAGE_TYPE_INVALID, JLS_STORAGE_TYPE_BINARY, JLS_STORAGE_TYPE_STRING, JLS_STORAGE_TYPE_JSON in *.
   destruct (ud_stype u =? 0) eqn:E0.
-  { assert (E3 : (ud_stype u <=? 3) = true) by lia. rewrite E3. cbn [fst snd]. split; [|reflexivity]. apply R_put; [exact HR|lia]. }
+  { assert (E3 : (ud_stype u <=? 3) = true) by lia. rewrite E3. cbn [fst snd]. split; [|reflexivity].
+    assert (Hz : ud_stype u = 0) by lia. rewrite Hz. now apply R_put0. }
   destruct (ud_stype u =? 1) eqn:E1.
   { assert (E3 : (ud_stype u <=? 3) = true) by lia. rewrite E3. cbn [fst snd str_read]. split; [|reflexivity]. apply R_put; [exact HR|lia]. }
   destruct ((ud_stype u =? 2) || (ud_stype u =? 3)) eqn:E2.
@@ -686,7 +780,7 @@ Lemma step_any : forall w c o, R w c -> df_wop_ok o ->
 Proof.
   intros w c o HR Hok. destruct o as [d|d|sig sid samples|sig en|sig a|sig sid utc|u|]; cbn [df_wop_ok] in Hok.
   - now apply step_src.
-  - destruct Hok as [Hf Hr]. now apply step_sig.
+  - destruct Hok as ((Nn & Nu) & Hr & Hao). now apply step_sig.
   - now apply step_data.
   - now apply step_data.
   - now apply step_data.
@@ -710,6 +804,8 @@ Proof.
 Qed.
 
 Ltac le_by_compute := vm_compute; intros Hle_; discriminate Hle_.
+Ltac nonul_tac := let b := fresh "b" in let Hb := fresh "Hb" in
+  intros b Hb; cbn in Hb; repeat (destruct Hb as [<-|Hb]; [discriminate|]); destruct Hb.
 
 Lemma R_open : R df_open content0.
 Proof.
@@ -719,7 +815,7 @@ Proof.
     + intros [|p]; vm_compute; reflexivity.
     + vm_compute. reflexivity.
     + vm_compute. reflexivity.
-    + vm_compute. reflexivity.
+    + exists []. split; vm_compute; reflexivity.
   - unfold CInv. split7.
     + vm_compute. repeat constructor. intros [].
     + intros d [<-|[]]. split; [vm_compute; reflexivity|]. unfold df_src_fits, df_str_fits. repeat split; le_by_compute.
@@ -764,11 +860,11 @@ Proof.
   - destruct (find (fun d => key d =? id) l); [reflexivity|]. rewrite upd_other; [reflexivity|lia].
 Qed.
 
-Lemma scan_sources_ok : forall j srcs t, (forall d, In d srcs -> so_id d < 256 /\ df_src_fits d) ->
-  df_scan_sources j (map src_entry srcs) t
+Lemma scan_sources_ok : forall srcs t, (forall d, In d srcs -> so_id d < 256 /\ df_src_fits d) ->
+  df_scan_sources (map src_entry srcs) t
   = DfOk (fold_left (fun t d => df_upd t (so_id d) (Some (df_src_read d))) srcs t).
 Proof.
-  intros j. induction srcs as [|a l IH]; intros t H; [reflexivity|].
+  induction srcs as [|a l IH]; intros t H; [reflexivity|].
   cbn [map fold_left]. unfold src_entry at 1. cbn [df_scan_sources]. change JLS_SOURCE_COUNT with 256.
   destruct (H a (or_introl eq_refl)) as [Hlt Hf].
   destruct (256 <=? so_id a) eqn:E; [lia|]. rewrite source_def_roundtrip by exact Hf. cbn [df_bind].
@@ -778,21 +874,21 @@ Qed.
 Lemma validate_read : forall d, df_validate (df_sig_read d) = df_validate d.
 Proof. reflexivity. Qed.
 
-Lemma scan_signals_ok : forall j sds t ch,
+Lemma scan_signals_ok : forall sds t ch,
   (forall d, In d sds -> sg_id d < 256 /\ df_validate d = true /\ df_sig_ranges d /\ df_sig_fits d) ->
-  df_scan_signals j (map sig_entry sds) t ch
+  df_scan_signals (map sig_entry sds) t ch
   = DfOk (fold_left (fun t d => df_upd t (sg_id d) (Some (df_sig_read d))) sds t,
           fold_left (fun ch d => df_upd ch (sg_id d) true) sds ch).
 Proof.
-  intros j. induction sds as [|a l IH]; intros t ch H; [reflexivity|].
+  induction sds as [|a l IH]; intros t ch H; [reflexivity|].
   cbn [map fold_left]. unfold sig_entry at 1. cbn [df_scan_signals]. change JLS_SIGNAL_COUNT with 256.
   destruct (H a (or_introl eq_refl)) as (Hlt & Hv & Hr & Hf).
   destruct (256 <=? sg_id a) eqn:E; [lia|]. rewrite signal_def_roundtrip by assumption.
   rewrite validate_read, Hv. apply IH. intros d Hd. apply H. now right.
 Qed.
 
-Theorem reader_on_R : forall j w c, R w c ->
-  exists r, df_scan j (dfw_log w) = DfOk r /\
+Theorem reader_on_R : forall w c, R w c ->
+  exists r, df_scan (dfw_log w) = DfOk r /\
     df_rd_sources r = map df_src_read (rd_sources c) /\
     df_rd_signals r = map df_sig_read (map ss_def (rd_signals c)) /\
     (forall id, df_rd_signal r id =
@@ -800,9 +896,9 @@ Theorem reader_on_R : forall j w c, R w c ->
                 | Some s => DfOk (df_sig_read (ss_def s))
                 | None => DfErr (if JLS_SIGNAL_COUNT <=? id then JLS_ERROR_PARAMETER_INVALID else JLS_ERROR_NOT_FOUND)
                 end) /\
-    dfr_ud r = (0, []) :: map ud_entry (c_udata c).
+    df_rd_user_data r = (c_udata c, 0).
 Proof.
-  intros j w c HR. pose proof HR as [(Rs & Rg & Ls & Lg & Lu) (C1 & C2 & C3 & C4 & C5 & C6 & C7)].
+  intros w c HR. pose proof HR as [(Rs & Rg & Ls & Lg & (ru & Lu & Wk)) (C1 & C2 & C3 & C4 & C5 & C6 & C7)].
   unfold df_scan. rewrite Ls, Lg. rewrite scan_sources_ok by exact C2. cbn [df_bind].
   rewrite scan_signals_ok by exact C5. cbn [df_bind].
   eexists. split; [reflexivity|]. split; [|split; [|split]].
@@ -830,7 +926,7 @@ Proof.
       destruct (find_sig c id) as [s|] eqn:G; cbn [option_map]; [reflexivity|].
       cbn [df_rd0 dfr_sig dfr_sigchunk]. destruct (id =? 0) eqn:E0; [|reflexivity].
       apply N.eqb_eq in E0. subst id. rewrite <- find_sig_sd, G in C6. discriminate C6.
-  - cbn [dfr_ud]. exact Lu.
+  - unfold df_rd_user_data. cbn [dfr_ud]. rewrite Lu. cbn [tl]. exact Wk.
 Qed.
 
 (* ---- property 3 ---- *)
@@ -840,8 +936,8 @@ Proof.
   destruct Hs as [H1 _]. specialize (H1 x Hin). lia.
 Qed.
 
-Theorem defs_roundtrip : forall j p, df_prog_ok p ->
-  exists r, df_scan j (dfw_log (fst (df_run_prog p))) = DfOk r /\
+Theorem defs_roundtrip : forall p, df_prog_ok p ->
+  exists r, df_scan (dfw_log (fst (df_run_prog p))) = DfOk r /\
     df_rd_sources r = map df_src_read (rd_sources (spec_of p)) /\
     df_rd_signals r = map df_sig_read (map ss_def (rd_signals (spec_of p))) /\
     (forall id, df_rd_signal r id =
@@ -853,8 +949,8 @@ Theorem defs_roundtrip : forall j p, df_prog_ok p ->
     (exists rg, map ss_def (rd_signals (spec_of p)) = signal0 :: rg) /\
     map df_accepted (snd (df_run_prog p)) = snd (run_spec content0 p).
 Proof.
-  intros j p Hok. destruct (run_refines p Hok) as [HR Hacc].
-  destruct (reader_on_R j _ _ HR) as (r & H1 & H2 & H3 & H4 & _).
+  intros p Hok. destruct (run_refines p Hok) as [HR Hacc].
+  destruct (reader_on_R _ _ HR) as (r & H1 & H2 & H3 & H4 & _).
   exists r. split; [exact H1|]. split; [exact H2|]. split; [exact H3|]. split; [exact H4|].
   destruct HR as [_ (C1 & C2 & C3 & C4 & C5 & C6 & C7)]. split; [|split; [|exact Hacc]].
   - unfold rd_sources. apply (ssorted_head0 so_id).
@@ -887,6 +983,31 @@ Proof.
   - cbn [fst snd df_set_src dfw_log dfw_src]. rewrite upd_same. repeat split.
 Qed.
 
+(* a definition whose buffers would not fit 32-bit sizes is refused and nothing is written *)
+Theorem oversize_signal_rejected : forall w d, df_align_ok d = false ->
+  exists rc, rc <> 0 /\ snd (df_step w (DfSig d)) = DfRc rc /\ dfw_log (fst (df_step w (DfSig d))) = dfw_log w /\
+             (df_is_defd (dfw_sig w (sg_id d)) = false -> df_is_defd (dfw_sig (fst (df_step w (DfSig d))) (sg_id d)) = false).
+Proof.
+  intros w d Hao. cbn [df_step]. unfold df_wr_signal.
+  assert (Hsame : forall rc, rc <> 0 -> exists rc0, rc0 <> 0 /\ snd (w, DfRc rc) = DfRc rc0 /\ dfw_log (fst (w, DfRc rc)) = dfw_log w /\
+            (df_is_defd (dfw_sig w (sg_id d)) = false -> df_is_defd (dfw_sig (fst (w, DfRc rc)) (sg_id d)) = false)).
+  { intros rc Hrc. exists rc. repeat split; [exact Hrc|]. intros H; exact H. }
+  assert (Hscr : forall rc, rc <> 0 -> exists rc0, rc0 <> 0 /\
+            snd (df_set_sig w (sg_id d) (DfScratch d) (dfw_log w), DfRc rc) = DfRc rc0 /\
+            dfw_log (fst (df_set_sig w (sg_id d) (DfScratch d) (dfw_log w), DfRc rc)) = dfw_log w /\
+            (df_is_defd (dfw_sig w (sg_id d)) = false ->
+             df_is_defd (dfw_sig (fst (df_set_sig w (sg_id d) (DfScratch d) (dfw_log w), DfRc rc)) (sg_id d)) = false)).
+  { intros rc Hrc. exists rc. repeat split; [exact Hrc|]. intros _. cbn [fst df_set_sig dfw_sig]. now rewrite upd_same. }
+  destruct (JLS_SIGNAL_COUNT <=? sg_id d); [apply Hsame; discriminate|].
+  destruct (JLS_SOURCE_COUNT <=? sg_src d); [apply Hsame; discriminate|].
+  destruct (negb (df_is_defd (dfw_src w (sg_src d)))); [apply Hsame; discriminate|].
+  destruct (df_is_defd (dfw_sig w (sg_id d))) eqn:E; [apply Hsame; discriminate|].
+  destruct (negb ((sg_type d =? JLS_SIGNAL_TYPE_FSR) || (sg_type d =? JLS_SIGNAL_TYPE_VSR))); [apply Hsame; discriminate|].
+  destruct (negb (df_save_ok (sg_name d) && df_save_ok (sg_units d))); [apply Hscr; discriminate|].
+  destruct (negb (df_validate d)); [apply Hscr; discriminate|].
+  rewrite Hao. cbn [negb]. apply Hscr. discriminate.
+Qed.
+
 (* ---- property 4: identity rules ---- *)
 Lemma step_src_table : forall w o id, df_is_defd (dfw_src w id) = true ->
   dfw_src (fst (df_step w o)) id = dfw_src w id.
@@ -906,6 +1027,7 @@ Proof.
     destruct (negb ((sg_type d =? JLS_SIGNAL_TYPE_FSR) || (sg_type d =? JLS_SIGNAL_TYPE_VSR))); [reflexivity|].
     destruct (negb (df_save_ok (sg_name d) && df_save_ok (sg_units d))); [reflexivity|].
     destruct (negb (df_validate d)); [reflexivity|].
+    destruct (negb (df_align_ok d)); [reflexivity|].
     destruct ((sg_type d =? JLS_SIGNAL_TYPE_FSR) && (sg_rate d =? 0)); reflexivity.
   - unfold df_wr_user_data.
     destruct (st =? JLS_STORAGE_TYPE_INVALID); [reflexivity|].
@@ -938,6 +1060,7 @@ Proof.
     destruct (negb (df_save_ok (sg_name d) && df_save_ok (sg_units d)));
       [cbn [fst df_set_sig dfw_sig]; now apply upd_other|].
     destruct (negb (df_validate d)); [cbn [fst df_set_sig dfw_sig]; now apply upd_other|].
+    destruct (negb (df_align_ok d)); [cbn [fst df_set_sig dfw_sig]; now apply upd_other|].
     destruct ((sg_type d =? JLS_SIGNAL_TYPE_FSR) && (sg_rate d =? 0));
       cbn [fst df_set_sig dfw_sig]; now apply upd_other.
   - unfold df_wr_user_data.
@@ -998,6 +1121,7 @@ Proof.
   destruct (negb ((sg_type d =? JLS_SIGNAL_TYPE_FSR) || (sg_type d =? JLS_SIGNAL_TYPE_VSR))); [discriminate|].
   destruct (negb (df_save_ok (sg_name d) && df_save_ok (sg_units d))); [discriminate|].
   destruct (negb (df_validate d)); [discriminate|].
+  destruct (negb (df_align_ok d)); [discriminate|].
   destruct ((sg_type d =? JLS_SIGNAL_TYPE_FSR) && (sg_rate d =? 0)); [discriminate|].
   intros _. cbn [fst df_set_sig dfw_sig]. rewrite upd_same. split; [lia|reflexivity].
 Qed.
@@ -1053,102 +1177,49 @@ Qed.
    specification accepts them (run_refines), and the reader reports an undefined signal *)
 
 (* ---- property 5: user data ---- *)
-Lemma ud_walk_ok : forall uds, (forall u, In u uds -> ud_meta u < 4096 /\ 1 <= ud_stype u <= 3) ->
-  df_ud_walk (map ud_entry uds) = (uds, 0).
-Proof.
-  induction uds as [|a l IH]; intros H; [reflexivity|].
-  destruct (H a (or_introl eq_refl)) as (Hm & Hs1 & Hs3).
-  cbn [map]. unfold ud_entry at 1. cbn [df_ud_walk].
-  assert (E1 : N.land (N.shiftr (ud_meta a + 4096 * ud_stype a) 12) 15 = ud_stype a).
-  { rewrite N.shiftr_div_pow2. change (2 ^ 12) with 4096. change 15 with (N.ones 4). rewrite N.land_ones.
-    change (2 ^ 4) with 16. lia. }
-  assert (E2 : N.land (ud_meta a + 4096 * ud_stype a) 4095 = ud_meta a).
-  { rewrite land_4095. lia. }
-  rewrite E1, E2.
-  destruct ((1 <=? ud_stype a) && (ud_stype a <=? 3)) eqn:E; [|lia].
-  rewrite IH by (intros u Hu; apply H; now right). destruct a; reflexivity.
-Qed.
-
-Lemma wstep_udata : forall c o u, In u (c_udata (fst (wstep c o))) ->
-  In u (c_udata c) \/ exists u0, o = WUd u0 /\ ud_stype u = ud_stype u0.
-Proof.
-  intros c o u. destruct o as [d|d|sig sid samples|sig en|sig a|sig sid utc|u0|]; cbn [wstep].
-  - match goal with |- context [if ?b then _ else _] => destruct b end; cbn [fst c_udata]; auto.
-  - match goal with |- context [if ?b then _ else _] => destruct b end; cbn [fst c_udata]; auto.
-  - destruct (find_sig c sig); [|cbn; auto].
-    match goal with |- context [if ?b then _ else _] => destruct b end; cbn [fst c_udata upd_sig]; auto.
-  - destruct (find_sig c sig); [|cbn; auto].
-    match goal with |- context [if ?b then _ else _] => destruct b end; cbn [fst c_udata]; auto.
-  - destruct (find_sig c sig); [|cbn; auto].
-    match goal with |- context [if ?b then _ else _] => destruct b end; cbn [fst c_udata upd_sig]; auto.
-  - destruct (find_sig c sig); [|cbn; auto].
-    match goal with |- context [if ?b then _ else _] => destruct b end; cbn [fst c_udata upd_sig]; auto.
-  - destruct (stype_ok_ud (ud_stype u0)); cbn [fst c_udata]; auto.
-    intros Hin. apply in_app_or in Hin. destruct Hin as [Hin|[<-|[]]]; [now left|]. right. exists u0. split; reflexivity.
-  - cbn; auto.
-Qed.
-
-Lemma run_udata : forall p c u, In u (c_udata (fst (run_spec c p))) ->
-  In u (c_udata c) \/ exists u0, In (WUd u0) p /\ ud_stype u = ud_stype u0.
-Proof.
-  induction p as [|o p IH]; intros c u; [cbn; auto|].
-  cbn [run_spec]. pose proof (wstep_udata c o u) as Hw. destruct (wstep c o) as [c1 a]. cbn [fst] in Hw.
-  specialize (IH c1 u). destruct (run_spec c1 p) as [c2 l]. cbn [fst] in *. intros Hin.
-  destruct (IH Hin) as [H1|(u0 & H0 & Hs)].
-  - destruct (Hw H1) as [H2|(u0 & -> & Hs)]; [now left|]. right. exists u0. split; [now left|exact Hs].
-  - right. exists u0. split; [now right|exact Hs].
-Qed.
-
-Theorem user_data_roundtrip : forall j p, df_prog_ok p -> df_ud_valid_types p ->
-  exists r, df_scan j (dfw_log (fst (df_run_prog p))) = DfOk r /\
+Theorem user_data_roundtrip : forall p, df_prog_ok p ->
+  exists r, df_scan (dfw_log (fst (df_run_prog p))) = DfOk r /\
             df_rd_user_data r = (c_udata (spec_of p), 0).
 Proof.
-  intros j p Hok Hty. destruct (run_refines p Hok) as [HR _].
-  destruct (reader_on_R j _ _ HR) as (r & H1 & _ & _ & _ & Hud).
-  exists r. split; [exact H1|]. unfold df_rd_user_data. rewrite Hud. cbn [tl].
-  apply ud_walk_ok. intros u Hu. destruct HR as [_ (_ & _ & _ & _ & _ & _ & C7)].
-  destruct (C7 u Hu) as [Hm Hs]. split; [exact Hm|]. split; [|exact Hs].
-  unfold spec_of in Hu. destruct (run_udata p content0 u Hu) as [[]|(u0 & Hin & Hst)].
-  specialize (Hty u0 Hin). unfold JLS_STORAGE_TYPE_INVALID in Hty. lia.
+  intros p Hok. destruct (run_refines p Hok) as [HR _].
+  destruct (reader_on_R _ _ HR) as (r & H1 & _ & _ & _ & Hud). exists r. split; assumption.
 Qed.
 
-(* what the items are: tag masked to 12 bits, storage type, the bytes given (Spec.wstep), in call order;
-   for STRING/JSON the bytes are the C string with its terminator, size = strlen + 1 *)
+(* what the items are (Spec.wstep): tag masked to 12 bits, storage type, the bytes given, in call order;
+   for STRING/JSON the bytes are the C string with its terminator, size = strlen + 1; a call with storage
+   type INVALID is accepted and stores no item *)
 Theorem user_data_item : forall c u, stype_ok_ud (ud_stype u) = true ->
   c_udata (fst (wstep c (WUd u))) =
-  c_udata c ++ [{| ud_meta := N.land (ud_meta u) 4095; ud_stype := ud_stype u;
-                   ud_data := if ud_stype u =? 0 then [] else ud_data u |}].
-Proof. intros c u H. cbn [wstep]. rewrite H. reflexivity. Qed.
+  if ud_stype u =? 0 then c_udata c
+  else c_udata c ++ [{| ud_meta := N.land (ud_meta u) 4095; ud_stype := ud_stype u; ud_data := ud_data u |}].
+Proof. intros c u H. cbn [wstep]. rewrite H. destruct (ud_stype u =? 0); reflexivity. Qed.
 
-(* ---- refutations ---- *)
-Definition df_ud_bad_prog : list wop :=
+(* the program that lost its third item before /repo commit 48f541e: now every item comes back *)
+Definition df_ud_placeholder_prog : list wop :=
   [WUd {| ud_meta := 1; ud_stype := 1; ud_data := [7] |};
    WUd {| ud_meta := 1; ud_stype := 0; ud_data := [] |};
    WUd {| ud_meta := 2; ud_stype := 1; ud_data := [5] |}].
-
-(* FULL statement of user_data_roundtrip (without df_ud_valid_types) is false: an item written with
-   storage type INVALID is accepted by the writer and makes the reader stop with an error; every
-   later item is lost *)
-Theorem user_data_roundtrip_refuted :
-  exists p, df_prog_ok p /\
-    map df_accepted (snd (df_run_prog p)) = [true; true; true] /\
-    length (c_udata (spec_of p)) = 3%nat /\
-    match df_scan 0 (dfw_log (fst (df_run_prog p))) with
-    | DfOk r => df_rd_user_data r = ([{| ud_meta := 1; ud_stype := 1; ud_data := [7] |}], JLS_ERROR_PARAMETER_INVALID)
-    | _ => False
-    end.
+Example ex_ud_placeholder :
+  df_prog_ok df_ud_placeholder_prog /\
+  map df_accepted (snd (df_run_prog df_ud_placeholder_prog)) = [true; true; true] /\
+  df_log_ud (dfw_log (fst (df_run_prog df_ud_placeholder_prog))) = [(0, []); (4097, [7]); (1, []); (4098, [5])] /\
+  match df_scan (dfw_log (fst (df_run_prog df_ud_placeholder_prog))) with
+  | DfOk r => df_rd_user_data r = ([{| ud_meta := 1; ud_stype := 1; ud_data := [7] |};
+                                    {| ud_meta := 2; ud_stype := 1; ud_data := [5] |}], 0)
+  | _ => False
+  end.
 Proof.
-  exists df_ud_bad_prog. split.
-  - repeat constructor; cbn; intros [H|H]; discriminate H.
+  split.
+  - repeat (apply Forall_cons; [cbn; intros [H|H]; discriminate H|]). apply Forall_nil.
   - vm_compute. repeat split.
 Qed.
 
-(* a payload that did not come from the writer: a string whose NUL is the last payload byte while the
-   byte stored after the payload is 0x1f moves the cursor past the end, and the next string read
-   scans memory beyond the buffer *)
-Theorem foreign_payload_overrun :
-  df_dec_source_def 31 0 (repeat 0 64 ++ [65; 0]) = DfOob /\
-  df_dec_source_def 0 0 (repeat 0 64 ++ [65; 0]) = DfErr JLS_ERROR_EMPTY.
+(* a payload that did not come from the writer: a string whose NUL is the last payload byte; nothing
+   after the payload is looked at, the next read answers EMPTY (before /repo commit 741edba a 0x1f stored
+   after the payload moved the cursor beyond the end) *)
+Theorem foreign_payload_no_overrun :
+  df_dec_source_def 0 (repeat 0 64 ++ [65; 0]) = DfErr JLS_ERROR_EMPTY /\
+  df_rd_str [65; 0] = DfOk ([65], []).
 Proof. split; vm_compute; reflexivity. Qed.
 
 (* ---- examples ---- *)
@@ -1161,7 +1232,7 @@ Proof. vm_compute. reflexivity. Qed.
 Example ex_str_no_sep : df_dec_str [65; 0; 66; 0; 31] = Some ([65], [66; 0; 31]).
 Proof. vm_compute. reflexivity. Qed.
 Example ex_str_hyp : df_nonul [206; 169; 31] /\ df_str_fits [206; 169; 31].
-Proof. split; [intros b [<-|[<-|[<-|[]]]]; discriminate | unfold df_str_fits; le_by_compute]. Qed.
+Proof. split; [nonul_tac | unfold df_str_fits; le_by_compute]. Qed.
 
 Definition df_ex_src : srcdef :=
   {| so_id := 7; so_name := SBytes [206; 169]; so_vendor := SNull; so_model := SBytes []; so_version := SBytes [49; 31];
@@ -1169,7 +1240,7 @@ Definition df_ex_src : srcdef :=
 Example ex_source_def :
   df_src_fits df_ex_src /\
   df_enc_source_def df_ex_src = repeat 0 64 ++ [206; 169; 0; 31; 0; 31; 0; 31; 49; 31; 0; 31; 45; 0; 31] /\
-  df_dec_source_def 0 7 (df_enc_source_def df_ex_src) = DfOk (df_src_read df_ex_src).
+  df_dec_source_def 7 (df_enc_source_def df_ex_src) = DfOk (df_src_read df_ex_src).
 Proof. split; [unfold df_src_fits, df_str_fits; repeat split; le_by_compute|]. split; vm_compute; reflexivity. Qed.
 
 Definition df_ex_sig : sigdef :=
@@ -1179,7 +1250,7 @@ Definition df_ex_sig : sigdef :=
 Example ex_signal_def :
   df_sig_ranges (sp_align df_ex_sig) /\ df_sig_fits (sp_align df_ex_sig) /\
   (sg_spd (sp_align df_ex_sig), sg_sdf (sp_align df_ex_sig), sg_eps (sp_align df_ex_sig)) = (1024, 128, 640) /\
-  df_dec_signal_def 0 5 (df_enc_signal_def (sp_align df_ex_sig)) = DfOk (df_sig_read (sp_align df_ex_sig)).
+  df_dec_signal_def 5 (df_enc_signal_def (sp_align df_ex_sig)) = DfOk (df_sig_read (sp_align df_ex_sig)).
 Proof.
   split; [unfold df_sig_ranges; repeat split; vm_compute; reflexivity|].
   split; [unfold df_sig_fits, df_str_fits; split; le_by_compute|]. split; vm_compute; reflexivity.
@@ -1203,11 +1274,11 @@ Definition df_ex_prog : list wop :=
            sg_eps := 0; sg_sumdf := 0; sg_adf := 0; sg_udf := 0; sg_name := SNull; sg_units := SBytes [86] |}].
 
 Example ex_prog :
-  df_prog_ok df_ex_prog /\ df_ud_valid_types df_ex_prog /\
+  df_prog_ok df_ex_prog /\
   snd (df_run_prog df_ex_prog) =
     [DfRc 0; DfRc JLS_ERROR_NOT_FOUND; DfRc 0; DfRc JLS_ERROR_NOT_FOUND; DfRc 0; DfRc 0; DfRc 0;
      DfRc JLS_ERROR_ALREADY_EXISTS; DfRc JLS_ERROR_ALREADY_EXISTS; DfRc 0; DfRc 0] /\
-  match df_scan 0 (dfw_log (fst (df_run_prog df_ex_prog))) with
+  match df_scan (dfw_log (fst (df_run_prog df_ex_prog))) with
   | DfOk r => map so_id (df_rd_sources r) = [0; 3; 7] /\ map sg_id (df_rd_signals r) = [0; 2; 5] /\
               df_rd_user_data r = ([{| ud_meta := 4095; ud_stype := 2; ud_data := [104; 105; 0] |};
                                     {| ud_meta := 5; ud_stype := 1; ud_data := [] |}], 0) /\
@@ -1218,14 +1289,11 @@ Proof.
   split.
   { unfold df_prog_ok, df_ex_prog. repeat (apply Forall_cons; [cbn [df_wop_ok]|]); [..|apply Forall_nil].
     all: try exact I.
-    all: try solve [unfold df_src_fits, df_str_fits; repeat split; le_by_compute].
-    all: try solve [split; [unfold df_sig_fits, df_str_fits; split; le_by_compute
-                           |unfold df_sig_ranges; repeat split; vm_compute; reflexivity]].
-    - intros _. exists [104; 105]. split; [reflexivity|]. intros b [<-|[<-|[]]]; discriminate.
+    all: try solve [unfold df_src_nonul; repeat split; nonul_tac].
+    all: try solve [split; [split; nonul_tac
+                           |split; [unfold df_sig_ranges; repeat split; vm_compute; reflexivity|vm_compute; reflexivity]]].
+    - intros _. exists [104; 105]. split; [reflexivity|]. nonul_tac.
     - intros [H|H]; discriminate H. }
-  split.
-  { intros u Hin. cbn in Hin. repeat (destruct Hin as [Hin|Hin]; [try discriminate Hin; injection Hin as <-; discriminate|]).
-    destruct Hin. }
   vm_compute. repeat split.
 Qed.
 
@@ -1241,7 +1309,7 @@ Theorem refines_spec : forall p, df_prog_ok p ->
               end) /\
   df_log_src (dfw_log w) = map (fun d => (so_id d, df_enc_source_def d)) (c_sources c) /\
   df_log_sig (dfw_log w) = map (fun s => (sg_id (ss_def s), df_enc_signal_def (ss_def s))) (c_signals c) /\
-  df_log_ud (dfw_log w) = (0, []) :: map (fun u => (ud_meta u + 4096 * ud_stype u, ud_data u)) (c_udata c).
+  (exists r, df_log_ud (dfw_log w) = (0, []) :: r /\ df_ud_walk r = (c_udata c, 0)).
 Proof.
   intros p Hok w c. destruct (run_refines p Hok) as [[(Rs & Rg & Ls & Lg & Lu) _] Hacc].
   fold w in Rs, Rg, Ls, Lg, Lu. fold c in Rs, Rg, Ls, Lg, Lu.
@@ -1267,6 +1335,7 @@ Proof.
     destruct (negb ((sg_type d =? JLS_SIGNAL_TYPE_FSR) || (sg_type d =? JLS_SIGNAL_TYPE_VSR))); [discriminate|].
     destruct (negb (df_save_ok (sg_name d) && df_save_ok (sg_units d))); [discriminate|].
     destruct (negb (df_validate d)); [discriminate|].
+    destruct (negb (df_align_ok d)); [discriminate|].
     destruct ((sg_type d =? JLS_SIGNAL_TYPE_FSR) && (sg_rate d =? 0)); discriminate.
   - unfold df_wr_user_data.
     destruct (st =? JLS_STORAGE_TYPE_INVALID); [discriminate|].
